@@ -231,7 +231,12 @@ def run(unit, em):
         if short == 'TimbukSerializer::Serialize':
             ser_words = (fn, [n['v'] for n in fn.walk() if n['k'] == 'StringLiteral' and 'v' in n])
         if short == 'parse_timbuk':
-            parse_words = (fn, [n['v'] for n in fn.walk() if n['k'] == 'StringLiteral' and 'v' in n])
+            # the reader's vocabulary: parse_timbuk and the helpers of its unit (the rule-line parser may live in a helper)
+            words = []
+            for g in unit.functions:
+                if g.body is not None and g.file == fn.file:
+                    words += [n['v'] for n in g.walk() if n['k'] == 'StringLiteral' and 'v' in n]
+            parse_words = (fn, words)
         if short in ('SymbolicVarAsgn::ToString',):
             pass
     # ---- TRIM: in the parser, emptiness of input text is decided on trimmed text
